@@ -280,7 +280,7 @@ class Renamed:
         return self.R.assume(*a)
 
 
-def run(R, tier, only=None):
+def run(R, tier, only=None, project=None):
     if "dflt" not in R.configs:
         R.configs.append("dflt")
     P = facts.program("dflt")
